@@ -72,6 +72,7 @@ Definition civil_from_days (z : Z) : Z * Z * Z :=
 Definition to_utc (d : dt) : dt :=
   match dtz d with
   | None => d
+  | Some 0%Z => d                                  (* already UTC: astimezone leaves the fields alone *)
   | Some off =>
       let total := (dh d * 60 + dmi d - off)%Z in
       let shift := (total / 1440)%Z in
